@@ -307,6 +307,32 @@ def cases(ctx):
             if tool == "pbgen" and "-T" in argv:
                 continue
             out.append(argv_case({"tool": tool, "argv": argv}))
+    # mutational fuzz: valid command lines with one or two random edits (token deleted / duplicated / inserted /
+    # two tokens swapped); every outcome must still be one of the three clean ones
+    vocab = ["-T", "-q", "-v", "--seed", "0", "-1", "x", "php", "xor", "2", "--varnames", "-of", "opb", "latex", "-o", "-",
+             "-e", "complete", "3", "save", "gnp", ".5", "--plant", "-T", "-T"]
+    seeds_argv = [["php", "3", "2", "-T", "xor", "2"], ["php", "3", "2", "-T", "xor", "2", "-T", "flip"],
+                  ["kcolor", "3", "gnp", "5", ".5", "-T", "shuffle"], ["iso", "complete", "3", "-e", "complete", "3"],
+                  ["--seed", "3", "randkcnf", "3", "5", "4", "-T", "lift", "2"], ["op", "4", "--total", "-T", "or", "2"],
+                  ["peb", "pyramid", "2", "-T", "xorcomp", "3", "2"], ["-of", "opb", "--varnames", "count", "4", "2"],
+                  ["subgraph", "-G", "complete", "4", "-H", "complete", "2"], ["stone", "2", "path", "3", "--sparse", "1"]]
+    for _ in range(250 if tier == "quick" else 4000):
+        a = list(rng.choice(seeds_argv))
+        for _e in range(rng.choice([1, 1, 2])):
+            k = rng.randrange(4)
+            i = rng.randrange(len(a)) if a else 0
+            if k == 0 and a:
+                del a[i]
+            elif k == 1 and a:
+                a.insert(i, a[i])
+            elif k == 2:
+                a.insert(i, rng.choice(vocab))
+            elif len(a) > 1:
+                j = rng.randrange(len(a))
+                a[i], a[j] = a[j], a[i]
+        if "-o" in a or "--output" in a:
+            continue
+        out.append(argv_case({"tool": "cnfgen", "argv": a}))
     dimacs = "p cnf 3 2\n1 -2 0\n2 3 0\n"
     for argv, txt in ([[], dimacs], [["-q"], dimacs], [["-p", "-v", "-c"], dimacs], [[], ""], [[], "p cnf 1 1\n2 0\n"],
                       [[], "garbage"], [["--seed", "3"], dimacs], [["-i", "/nonexistent"], ""], [["--bogus"], dimacs]):
